@@ -364,6 +364,11 @@ def reader_stream(chk, fam, payload, rng, n):
             if not ok:
                 chk.branch("text-reader-both-reject")
             continue
+        if not ok and fam == "svd" and any(
+                all(unrat(a) ** 2 + unrat(b) ** 2 <= THRESH * 100 for a, b, _ in terms) for terms, _ in r["dec"]):
+            # a key all of whose amplitudes are below the native threshold is the empty vector: it cannot be a key
+            chk.count("text_reader", "svd:empty-key:code-rejects")
+            continue
         if not ok:
             return ("broken", f"model-vs-code:{fam}-reader",
                     f"{fam}: the model reads {t[:120]!r} ({how}) but the real reader raises")
